@@ -186,6 +186,7 @@ ThdRes thd(const arr_real& sig, int nharm, bool aliased, SinadType type) {
 }
 
 real_t snr(const arr_real& sig, int nharm, bool aliased, SinadType type) {
+    DSPLIB_ASSERT(nharm > 0, "number of harmonics must be positive");
     const auto pxx = (type == SinadType::Time) ? _periodogram(sig) : sig;
     auto info = _harm_analyze(pxx, nharm, aliased);
     return pow2db(info.harmpow[0] / info.noisepow);
